@@ -89,8 +89,9 @@ theorem C18_idempotent (top : List (SN τ)) (hwf : wfTop top = true) (root : DN)
 theorem C18_unique_by_tuple (kids : List (SN τ)) (entries : List DN) (u : List (List Tok)) :
     uniqueGroups kids entries u = groups (tupled kids entries u) := uniqueGroups_by_tuple kids entries u
 
-/-- on unique sets whose paths end at leaves carrying a value (what the compiler and a valid tree guarantee)
-    the model's groups are the specification's -/
+/-- on unique sets whose paths end at leaves (what the compiler guarantees) the model's groups are the
+    specification's — also for a leaf node that carries no value: it counts as a leaf that is not there
+    (the premise "carries a value" that this theorem once needed was where the real validator panicked) -/
 theorem C18_unique (kids : List (SN τ)) (entries : List DN) (u : List (List Tok))
     (h : ∀ e ∈ entries, ∀ p ∈ u, goodPath kids e.kids p) :
     uniqueGroups kids entries u = agreeing kids entries u := uniqueGroups_eq_agreeing kids entries u h
